@@ -106,12 +106,16 @@ func run(args []string) int {
 							bad++
 							continue
 						}
+						okc := 0
 						for _, o := range r.Obls {
-							fmt.Printf("%s %s %s %.2fs\n", o.Result, o.Name, o.Solver, o.TimeS)
 							if o.Result != "unsat" {
 								bad++
+								fmt.Printf("  %s %s {%s} %s %.2fs\n", o.Result, o.Name, o.Case, o.Solver, o.TimeS)
+							} else {
+								okc++
 							}
 						}
+						fmt.Printf("lemma %s: %d/%d obligations discharged (%d cases)\n", l.Name, okc, len(r.Obls), r.Cases)
 					}
 				}
 				continue
